@@ -62,10 +62,12 @@ def impl_env(repo=None):
     return env
 
 
-def run_impl(script, args, out_path=None, stdin=None, timeout=3000, repo=None):
+def run_impl(script, args, out_path=None, stdin=None, timeout=3000, repo=None, extra_env=None):
     """Run a driver script (under harness/) against the real code; returns stdout."""
     cmd = [PY, os.path.join(VERIF, 'harness', script)] + [str(a) for a in args]
-    p = subprocess.run(cmd, env=impl_env(repo), cwd=repo or REPO, input=stdin, capture_output=True,
+    env = impl_env(repo)
+    env.update(extra_env or {})
+    p = subprocess.run(cmd, env=env, cwd=repo or REPO, input=stdin, capture_output=True,
                        text=True, timeout=timeout)
     if p.returncode != 0:
         raise MachineryError('driver %s failed (%d):\n%s\n%s' % (script, p.returncode, p.stdout[-2000:], p.stderr[-4000:]))
